@@ -229,16 +229,30 @@ def run(ctx):
     # the ROM entry point
     ctx.rule('C12.6-rom-entry', 'the LD-BYTES entry the loaders jump to ($0556) is the address the load tracers intercept (Python and C)', floor=2)
     lt = repo.mod('loadtracer')
-    if '0x0556' in lt.src.lower().replace('0x0556', '0x0556') and 'pc == 0x0556' in lt.src:
-        ctx.ok({'site': 'loadtracer: pc == 0x0556'})
+    def is_entry_test(n):
+        return isinstance(n, ast.Compare) and len(n.ops) == 1 and isinstance(n.ops[0], ast.Eq) and \
+            any(isinstance(x, ast.Constant) and x.value == 0x0556 for x in [n.left] + list(n.comparators))
+    if any(is_entry_test(n) for n in ast.walk(lt.tree)):
+        ctx.ok({'site': 'loadtracer: <pc> == 0x0556'})
     else:
-        ctx.violation('loadtracer entry', 'skoolkit/loadtracer.py', 'the fast-load trigger is no longer pc == $0556')
-    with open(ctx.repo_root + '/c/csimulator.c') as f:
-        csrc = f.read()
-    if 'pc == 0x0556' in csrc:
-        ctx.ok({'site': 'csimulator.c: pc == 0x0556'})
+        ctx.violation('loadtracer entry', 'skoolkit/loadtracer.py', 'no comparison of the program counter with $0556 (LD-BYTES) is left in the load tracer: the fast-load trigger moved')
+    from sa.core import cfacts
+    facts = cfacts.load(repo.root)
+    def c_has(n):
+        if n.get('kind') == 'BinaryOperator' and n.get('opcode') == '==':
+            def lits(x):
+                x = cfacts.strip(x)
+                if x.get('kind') == 'IntegerLiteral':
+                    return [int(x['value'])]
+                return [v for y in x.get('inner', []) for v in lits(y)]
+            if 0x0556 in lits(n):
+                return True
+        return any(c_has(c) for c in n.get('inner', []))
+    u = cfacts.CUnit(facts['plain'])
+    if any(c_has(fn) for fn in u.funcs.values()):
+        ctx.ok({'site': 'csimulator.c: <pc> == 0x0556'})
     else:
-        ctx.violation('C entry', 'c/csimulator.c', 'the fast-load trigger is no longer pc == 0x0556')
+        ctx.violation('C entry', 'c/csimulator.c', 'no comparison with 0x0556 (LD-BYTES) is left in the C load loop: the fast-load trigger moved')
     from sa.rules.C13 import narrowing_rule
     narrowing_rule(ctx, repo)     # shared: the C fast-load path must not narrow 64-bit tape clocks
     from sa.rules import memo
